@@ -81,6 +81,72 @@ Definition lift_un (m : mode) (o : unop) (sz : Z) (dst : operand) : option (res 
 Definition lift_mov (m : mode) (sz : Z) (dst src : operand) : res (list operation) :=
   s <- opv m sz src ;; ops_store m sz dst s.
 
+(* Semantics::cc_condition: the condition of setcc / jcc / cmovcc as an expression over the flag scalars *)
+Definition n_PF : N := 33%N.
+Definition cc_condition (c : cc) : res expr :=
+  let fl n := EScalar (flag_scalar n) in
+  let is n v := mk_bin Cmpeq (fl n) (expr_const v 1) in
+  match c with
+  | CA => a <- is X86Lift.n_CF 0 ;; b <- is X86Lift.n_ZF 0 ;; mk_bin And a b
+  | CAE => is X86Lift.n_CF 0
+  | CB => is X86Lift.n_CF 1
+  | CBE => a <- is X86Lift.n_CF 1 ;; b <- is X86Lift.n_ZF 1 ;; mk_bin Or a b
+  | CE => is X86Lift.n_ZF 1
+  | CG => a <- mk_bin Cmpeq (fl X86Lift.n_SF) (fl X86Lift.n_OF) ;; b <- is X86Lift.n_ZF 0 ;; mk_bin And a b
+  | CGE => mk_bin Cmpeq (fl X86Lift.n_SF) (fl X86Lift.n_OF)
+  | CL => mk_bin Cmpneq (fl X86Lift.n_SF) (fl X86Lift.n_OF)
+  | CLE => a <- mk_bin Cmpneq (fl X86Lift.n_SF) (fl X86Lift.n_OF) ;; b <- is X86Lift.n_ZF 1 ;; mk_bin Or a b
+  | CNE => is X86Lift.n_ZF 0
+  | CNO => is X86Lift.n_OF 0
+  | CNP => is n_PF 0
+  | CNS => is X86Lift.n_SF 0
+  | CO => is X86Lift.n_OF 1
+  | CP => is n_PF 1
+  | CS => is X86Lift.n_SF 1
+  end.
+
+(* setcc r8: operand_store(dst, zext(8, cc_condition)) *)
+Definition lift_setcc (m : mode) (c : cc) (dst : operand) : res (list operation) :=
+  e <- cc_condition c ;; z <- mk_ext Zext 8 e ;; ops_store m 8 dst z.
+
+(* movzx / movsx / movsxd with a register source: operand_store(dst, zext|sext(dst bits, src)) *)
+Definition lift_movx (m : mode) (sg : bool) (dsz ssz : Z) (dst : Z) (src : operand) : res (list operation) :=
+  s <- opv m ssz src ;; v <- mk_ext (if sg then Sext else Zext) dsz s ;; ops_store m dsz (OReg dst) v.
+
+(* Mode::operand_value for a memory operand: the address expression.  Computed at the width of the address
+   registers (an address-size prefix selects narrower ones) and zero-extended to the mode width afterwards.
+   Absolute and rip-relative operands (no base, no index) are not mirrored. *)
+Definition addr_expr (m : mode) (o : operand) : option (res expr) :=
+  match o with
+  | OMem base index disp asz =>
+      match base, index with
+      | None, None => None
+      | _, _ => Some (
+          b <- (match base with Some r => e <- opv m asz (OReg r) ;; Ok (Some e) | None => Ok None end) ;;
+          i <- (match index with Some (r, _) => e <- opv m asz (OReg r) ;; Ok (Some e) | None => Ok None end) ;;
+          let ab := match b, i with Some e, _ => e_bits e | None, Some e => e_bits e | None, None => wordsz m end in
+          si <- (match i, index with
+                 | Some e, Some (_, sc) => x <- mk_bin Mul e (expr_const sc ab) ;; Ok (Some x)
+                 | _, _ => Ok None end) ;;
+          op <- (match b, si with
+                 | Some be, Some s => mk_bin Add be s
+                 | Some be, None => Ok be
+                 | None, Some s => Ok s
+                 | None, None => Err ECustom end) ;;
+          op <- (if 0 <? disp then mk_bin Add op (expr_const disp ab)
+                 else if disp <? 0 then mk_bin Sub op (expr_const (- disp) ab) else Ok op) ;;
+          if e_bits op <? wordsz m then mk_ext Zext (wordsz m) op else Ok op)
+      end
+  | _ => None
+  end.
+
+(* lea: dst.set(trun(dst bits, address) if the address is wider) *)
+Definition lift_lea (m : mode) (sz : Z) (dst : Z) (src : operand) : option (res (list operation)) :=
+  match addr_expr m src with
+  | Some ra => Some (a <- ra ;; a' <- (if sz <? e_bits a then mk_ext Trun sz a else Ok a) ;; ops_store m sz (OReg dst) a')
+  | None => None
+  end.
+
 Definition regimm (o : operand) : bool := match o with OReg _ | ORegH _ | OImm _ => true | _ => false end.
 Definition isreg (o : operand) : bool := match o with OReg _ | ORegH _ => true | _ => false end.
 
@@ -95,5 +161,8 @@ Definition mirror_instr (m : mode) (addr : Z) (i : instr) : option (res cfg) :=
   | IMov sz dst src => if isreg dst && regimm src then Some (wrap (lift_mov m sz dst src)) else None
   | IAlu o sz dst src => if isreg dst && regimm src then option_map wrap (lift_alu m o sz dst src) else None
   | IUn o sz dst => if isreg dst then option_map wrap (lift_un m o sz dst) else None
+  | ISetcc c dst => if isreg dst then Some (wrap (lift_setcc m c dst)) else None
+  | ILea sz dst src => option_map wrap (lift_lea m sz dst src)
+  | IMovx sg dsz ssz dst src => if isreg src then Some (wrap (lift_movx m sg dsz ssz dst src)) else None
   | _ => None
   end.
